@@ -161,6 +161,10 @@ _PF_TEMPLATES = {
     'kwdefault': 'def w(a, *args, target=DEFAULT, **kwargs):\n    return target(*args, **kwargs)\n',
     # callee bound by keyword: keywords do not resolve callee parameters
     'kwbound': 'def w(a, *args, target=DEFAULT, **kwargs):\n    return target(*args, **kwargs)\n',
+    # callee is a module global: discovery needs no bound argument at all, and must still happen
+    'globnone': 'def w(a, *args, **kwargs):\n    return callee(*args, **kwargs)\n',
+    'globkw': 'def w(a, *args, **kwargs):\n    return callee(*args, **kwargs)\n',
+    'globpos': 'def w(a, *args, **kwargs):\n    return callee(*args, **kwargs)\n',
 }
 
 
@@ -179,6 +183,12 @@ def rt_partialfwd(req):
         src += ['p = functools.partial(w, callee%s)' % ''.join(', %d' % (700 + i) for i in range(extra))]
     elif tmpl == 'kwdefault':
         src += ['p = functools.partial(w, 1%s)' % ''.join(', %d' % (700 + i) for i in range(extra))]
+    elif tmpl == 'globnone':
+        src += ['p = functools.partial(w)']
+    elif tmpl == 'globkw':
+        src += ['p = functools.partial(w, a=1)']
+    elif tmpl == 'globpos':
+        src += ['p = functools.partial(w, 1%s)' % ''.join(', %d' % (700 + i) for i in range(extra))]
     else:
         src += ['p = functools.partial(w, 1, target=callee)']
     text = '\n'.join(src) + '\n'
@@ -192,6 +202,36 @@ def rt_partialfwd(req):
             except Exception as e:  # noqa
                 return ('ok', ('partialfwd-raises: sigtools.signature(partial) raised %s: %s\n%s' % (type(e).__name__, e, text),), 'raised')
             plain = signatures.signature(mod.p)
+        if tmpl.startswith('glob'):
+            # the callee is resolvable without any bound argument, so the partial is looked through whatever it binds:
+            # its signature is the wrapper's discovered signature with the bound arguments taken out (partial-mode mask),
+            # or the plain one when that signature cannot take them
+            from sigtools import _signatures
+            with warnings.catch_warnings():
+                warnings.simplefilter('ignore')
+                wsig = sigtools.signature(mod.w)
+                try:
+                    want = _signatures._mask(wsig, len(mod.p.args), False, False, False, False, mod.p.keywords or {}, mod.p)
+                except ValueError:
+                    want = plain
+            if str(sig) != str(want):
+                problems.append('partialfwd-not-looked-through: sigtools.signature(p) = %s, but the wrapper is discovered as %s, which with the '
+                                'bound arguments taken out is %s\n%s' % (sig, wsig, want, text))
+            R = [(q.name, core.KIND_NAME[q.kind], None if q.default is q.empty else 1) for q in sig.parameters.values()]
+            ins = [[(q[0], q[1], q[2]) for q in cps], [('a', 'pk', None), ('args', 'vp', None), ('kwargs', 'vk', None)]]
+            ran = 0
+            if str(sig) != str(plain):
+                for m, K in O.shapes_for(ins + [R], foreign=('zz',), maxk=2):
+                    if not O.non_colliding(R, ins, K) or not O.acc(R, m, K):
+                        continue
+                    ran += 1
+                    try:
+                        mod.p(*([0] * m), **{k: 0 for k in K})
+                    except TypeError as e:
+                        problems.append('partialfwd-unsound: sigtools.signature(p) = %s accepts (%d,%s) but calling the partial raises TypeError: %s\n%s' % (
+                            sig, m, K, e, text))
+                        break
+            return ('ok', tuple(problems[:2]), 'glob-executed:%d' % ran)
         if tmpl != 'posparam' and str(sig) != str(plain):
             problems.append('partialfwd-resolved-unbound: the callee is not bound positionally, yet sigtools.signature(p) = %s differs from '
                             'signatures.signature(p) = %s\n%s' % (sig, plain, text))
